@@ -200,6 +200,8 @@ pub struct Program {
     /// a bus listener may be polled after `destroy()`
     pub allow_listener_after_destroy: bool,
     pub allow_broker_shutdown_in_flight: bool,
+    pub allow_claim_cancel: bool,
+    pub allow_client_vs_broker_shutdown: bool,
 }
 
 impl Program {
@@ -209,6 +211,8 @@ impl Program {
             late_abort: self.allow_late_abort,
             listener_after_destroy: self.allow_listener_after_destroy,
             broker_shutdown_in_flight: self.allow_broker_shutdown_in_flight,
+            claim_cancel: self.allow_claim_cancel,
+            client_vs_broker_shutdown: self.allow_client_vs_broker_shutdown,
         }
     }
 }
@@ -271,7 +275,11 @@ pub fn decode_header(t: &mut Tape) -> (u64, u64, u8, Vec<ClientSpec>, bool) {
     let n_clients = 1 + t.weighted(&[30, 100, 80, 46]);
     let mut clients = vec![];
     for _ in 0..n_clients {
-        let proto = if t.weighted(&[3, 1]) == 0 { Proto::V20 } else { Proto::V14 };
+        let proto = match t.weighted(&[6, 2, 2]) {
+            0 => Proto::V20,
+            1 => Proto::V14,
+            _ => Proto::Capped(15 + t.below(5) as u8),
+        };
         let tkind = if t.weighted(&[2, 3]) == 0 {
             TKind::Unbounded
         } else {
@@ -304,6 +312,10 @@ pub struct Allow {
     /// broker shutdown with client requests in flight, connection shutdown while the broker may
     /// stop on idle
     pub broker_shutdown_in_flight: bool,
+    /// a claim future dropped before its reply arrives (open finding F8)
+    pub claim_cancel: bool,
+    /// a client-initiated shutdown racing with the broker's shutdown (open finding F9)
+    pub client_vs_broker_shutdown: bool,
 }
 
 fn env_on(name: &str) -> bool {
@@ -317,11 +329,13 @@ impl Allow {
             late_abort: !env_on("VAPI_EXCLUDE_F5"),
             listener_after_destroy: !env_on("VAPI_EXCLUDE_F6"),
             broker_shutdown_in_flight: !env_on("VAPI_EXCLUDE_F7"),
+            claim_cancel: !env_on("VAPI_EXCLUDE_F8"),
+            client_vs_broker_shutdown: !env_on("VAPI_EXCLUDE_F9"),
         }
     }
 
     pub fn none() -> Self {
-        Allow { refused_claims: false, late_abort: false, listener_after_destroy: false, broker_shutdown_in_flight: false }
+        Allow { refused_claims: false, late_abort: false, listener_after_destroy: false, broker_shutdown_in_flight: false, claim_cancel: false, client_vs_broker_shutdown: false }
     }
 }
 
@@ -399,6 +413,8 @@ pub fn decode_program(tape: &[u8], allow: Allow, aim: Aim, max_ops: usize) -> Pr
         allow_late_abort: allow.late_abort,
         allow_listener_after_destroy: allow.listener_after_destroy,
         allow_broker_shutdown_in_flight: allow.broker_shutdown_in_flight,
+        allow_claim_cancel: allow.claim_cancel,
+        allow_client_vs_broker_shutdown: allow.client_vs_broker_shutdown,
     }
 }
 
@@ -577,7 +593,7 @@ impl Gen<'_, '_> {
         // dedicated fragments for the shapes around the repaired defects F2/F5/F6/F7: often in
         // the class that aims at them, now and then everywhere
         let (la, lad, rc, cc, sc) = match self.aim {
-            Aim::Mixed => (b % 32 == 0, b % 32 == 1, b % 32 == 2 || b % 32 == 3, b % 32 == 4 || b % 32 == 5, false),
+            Aim::Mixed => (b % 32 == 0, b % 32 == 1, b % 32 == 2 || b % 32 == 3, b % 32 == 4, false),
             Aim::LateAbort => (b % 4 == 0, false, false, false, false),
             Aim::ListenerAfterDestroy => (false, b % 4 == 0, false, false, false),
             Aim::Claims => (false, false, b % 6 == 0, b % 6 == 1, false),
@@ -592,7 +608,7 @@ impl Gen<'_, '_> {
         if rc && self.allow.refused_claims {
             return self.frag_refused_claim();
         }
-        if cc && self.allow.refused_claims {
+        if cc && self.allow.refused_claims && self.allow.claim_cancel {
             return self.frag_claim_cancel();
         }
         if sc {
@@ -1045,7 +1061,7 @@ impl Gen<'_, '_> {
             self.push(tb, Op::Bind { ch: chb, end: oth, k });
             self.push(tb, Op::Claim { ch: chb, end: oth, cap: cap2 });
             self.set_end(b, chb, oth, GEnd::Est);
-            if self.t.chance(56) {
+            if self.t.chance(30) {
                 // a second claimant for the same end
                 let c = self.client();
                 let tc = self.task(c);
